@@ -34,6 +34,16 @@ def scratch():
     return _scratch
 
 
+def _die_with_parent():
+    """child JVMs must not outlive a killed check (PR_SET_PDEATHSIG = 1)"""
+    try:
+        import ctypes
+        import signal
+        ctypes.CDLL('libc.so.6').prctl(1, signal.SIGKILL)
+    except Exception:
+        pass
+
+
 def _java(args, env=None, timeout=1800, xmx='4g', cwd=SPEC):
     cmd = ['java', '-XX:+UseParallelGC', '-Xmx' + xmx, '-Xss64m', '-DTLA-Library=' + LIBPATH, '-cp', JAR] + args
     e = dict(os.environ)
@@ -43,7 +53,7 @@ def _java(args, env=None, timeout=1800, xmx='4g', cwd=SPEC):
     t0 = time.time()
     try:
         p = subprocess.run(cmd, cwd=cwd, env=e, stdout=subprocess.PIPE, stderr=subprocess.STDOUT,
-                           timeout=timeout, text=True, errors='replace')
+                           timeout=timeout, text=True, errors='replace', preexec_fn=_die_with_parent)
     except subprocess.TimeoutExpired as ex:
         raise MachineryError('timeout after %ss: %s' % (timeout, ' '.join(args[:6]))) from ex
     return p.returncode, p.stdout, time.time() - t0
